@@ -168,7 +168,9 @@ func RunPeerScenario(ps *PeerScenario) ([]rec.Event, Result) {
 	for _, a := range ps.Aux {
 		sess.AddAuxiliaryAddress(fbb.AddressFromString(a))
 	}
-	if sec := ps.Secure; sec != nil && sec.Callback != "none" {
+	if sec := ps.Secure; sec != nil && sec.Callback == "nil" {
+		sess.SetSecureLoginHandleFunc(nil) // explicitly un-registered: the same as never registered
+	} else if sec != nil && sec.Callback != "none" {
 		sess.SetSecureLoginHandleFunc(func(addr fbb.Address) (string, error) {
 			if sec.Callback == "error" {
 				return "", fmt.Errorf("no password available")
@@ -364,7 +366,7 @@ func MainC16(args []string) int {
 			Sched: "free", MyCall: "LA1AAA", Locator: "JO29PJ", Aux: aux,
 			Secure: &SecureCfg{Password: password, AuxPw: auxpw, Callback: cb, AuxErr: rng.Intn(2) == 0},
 			Script: &PeerScript{Master: true, Sid: sidVariants[rng.Intn(len(sidVariants))], PQ: challenge, Answers: map[string]string{},
-				Prompt: "CMS via LA2BBB >"}}
+				PQFirst: rng.Intn(4) == 0, Prompt: "CMS via LA2BBB >"}}
 		scs = append(scs, ps)
 	}
 	// the repository's published vector
@@ -406,6 +408,8 @@ func MainC16(args []string) int {
 			cb = "none"
 		case 1:
 			cb = "error"
+		case 2:
+			cb = "nil"
 		}
 		mk(challenge, pw, aux, auxpw, cb)
 	}
